@@ -390,6 +390,29 @@ ReduceAxis1(op, a, axis, keepdims) ==
 RECURSIVE ReduceAll(_, _)
 ReduceAll(op, a) == Scalar(FoldOpU(op, a.v))
 
+\* statistics of a non-empty sequence of scalars: mean, variance with `ddof` delta degrees of
+\* freedom (numpy: sum((x - mean)^2) / (n - ddof)), standard deviation (defined in the exact
+\* algebra only when the variance is a perfect square)
+SeqMean(xs) == TrueDiv(FoldOpU("add", xs), RInt(Len(xs)))
+SeqVar(xs, ddof) ==
+  LET m == SeqMean(xs)
+      sq == [k \in 1..Len(xs) |-> LET dlt == Sub(xs[k], m) IN Mul(dlt, dlt)]
+  IN IF Len(xs) - ddof <= 0 THEN Undef ELSE TrueDiv(FoldOpU("add", sq), RInt(Len(xs) - ddof))
+StatOf(r, xs, ddof) ==
+  CASE r = "mean" -> SeqMean(xs)
+    [] r = "var" -> SeqVar(xs, ddof)
+    [] r = "std" -> Sqrt(SeqVar(xs, ddof))
+    [] OTHER -> Undef
+StatAxis1(r, a, axis, keepdims, ddof) ==
+  LET n == a.sh[axis + 1]
+      rsh == DropAt(a.sh, axis + 1)
+      ksh == IF keepdims THEN [j \in 1..Len(a.sh) |-> IF j = axis + 1 THEN 1 ELSE a.sh[j]]
+             ELSE rsh
+  IN [sh |-> ksh,
+      v |-> [k \in 1..Size(rsh) |->
+               LET ridx == Unflat(k - 1, rsh)
+               IN StatOf(r, [i \in 1..n |-> At(a, InsertAt(ridx, axis + 1, i - 1))], ddof)]]
+
 ReduceName2Op(r) ==
   CASE r = "sum" -> "add"
     [] r = "prod" -> "mul"
@@ -402,6 +425,13 @@ ReduceName2Op(r) ==
 
 \* numpy-style reduction: axis = -100 encodes axis=None
 NoAxis == -100
+StatArr(r, a, axis, keepdims, ddof) ==
+  IF axis = NoAxis
+  THEN IF keepdims
+       THEN [sh |-> [j \in 1..Len(a.sh) |-> 1], v |-> <<StatOf(r, a.v, ddof)>>]
+       ELSE Scalar(StatOf(r, a.v, ddof))
+  ELSE StatAxis1(r, a, IF axis < 0 THEN axis + Len(a.sh) ELSE axis, keepdims, ddof)
+
 ReduceArr(r, a, axis, keepdims) ==
   LET op == ReduceName2Op(r) IN
   IF axis = NoAxis
